@@ -17,7 +17,11 @@ REG = dict(category="exploration",
     "against Curve!PMul. (5) ShaStream.tla transcribes sha256_write/finalize; C05_Sha.tla explores every write-chunk-length sequence, checks digest = one-shot hash "
     "and the block count on the model, and every transition is replayed through the real code with a counting compression function installed via the public seam; "
     "all lengths 0..300, HMAC, RFC 6979 multi-generate, tagged hashes with long messages. The SAME expected records are replayed on every build variant "
-    "(5x52/10x26 field, 4x64/8x32 scalar, int128 native/struct, asm on/off, window and comb sizes): bit-identical across configurations.",
+    "(5x52/10x26 field, 4x64/8x32 scalar, int128 native/struct, asm on/off, window and comb sizes): bit-identical across configurations. "
+    "(6) C05_Scratch.tla: the scratch-space allocator as a history machine (create/alloc/checkpoint/apply/max_allocation/destroy with size_t wrap-around, "
+    "and ecmult_multi_var run on the space as it is); TLC checks no-overlap, alignment, alloc <= max and the max_allocation promise, and every labelled "
+    "transition is replayed behind its shortest history on the real allocator (offsets, NULLs, zero-fill, error callbacks, result point, alloc restored). "
+    "T direction also records limb-structured field operands (one cleared bit per limb of p in both layouts, values differing in one limb, 2^a + 2^b).",
     note="Exploration, not proof: operands come from edge-biased pools and seeded random values, not all 2^256; a carry bug needing one specific limb pattern outside "
     "the pools is missed; assembly is exercised, not analysed; only configurations that compile on x86-64. Sequences leading to the same abstract state are merged by "
     "TLC (transition tour). Trusted: TLC, BigInteger/MessageDigest overrides, the harness (which also normalises results for observation).",
